@@ -100,6 +100,7 @@ func genReuseCase(t *rapid.T, prop string) *Case {
 			op.PreIt = rapid.IntRange(0, 8).Draw(t, "preit")
 			op.Flags = rapid.IntRange(0, 7).Draw(t, "flags")
 		default:
+			op.Slot = rapid.IntRange(0, 1).Draw(t, "dvslot")
 			if rapid.IntRange(0, 1).Draw(t, "edge") == 0 {
 				op.Doc = rapid.SampledFrom([]int{0, 5, 127, 128, 1000, 1023, 1024, 1025, 1500, 2047, 2048, 2049, 3071, 3072}).Draw(t, "edgedoc")
 			} else {
@@ -416,7 +417,9 @@ func runReuseCase(c *Case, env *Env) *Result {
 				if cnt == 0 {
 					return
 				}
-				dvr := dvrs[ws.Idx]
+				// two readers are kept per segment (Slot), used alternately
+				dvKey := ws.Idx*2 + op.Slot%2
+				dvr := dvrs[dvKey]
 				if dvr == nil {
 					d, err := ws.Seg.DocumentValueReader(append(append([]string(nil), ws.Fields...), model.UnknownField))
 					if err != nil {
@@ -424,7 +427,10 @@ func runReuseCase(c *Case, env *Env) *Result {
 						return
 					}
 					dvr = d
-					dvrs[ws.Idx] = d
+					dvrs[dvKey] = d
+					if dvrs[ws.Idx*2+1-op.Slot%2] != nil {
+						res.probe("two-docvalue-readers-open-on-one-segment")
+					}
 				} else {
 					res.probe("docvalue-reader-reused")
 					res.NonTrivial = true
